@@ -290,6 +290,8 @@ class Engine:
     def ev_UnaryOp(self, node, st, guard):
         v = self.ev(node.operand, st, guard)
         if isinstance(node.op, ast.USub):
+            if isinstance(v, (PyObj, Ref, tuple)):
+                raise Unsupported("negation of non-scalar")
             return -v
         if isinstance(node.op, ast.UAdd):
             return v
@@ -309,6 +311,8 @@ class Engine:
             a = z3.If(a, 1, 0)
         if is_z3(b) and z3.is_bool(b):
             b = z3.If(b, 1, 0)
+        if is_z3(a) or is_z3(b):
+            a, b = to_z3(a), to_z3(b)
         if isinstance(op, ast.Add):
             return a + b
         if isinstance(op, ast.Sub):
